@@ -15,7 +15,7 @@ GROUPS = {
 }
 PROMPT = """You work ONLY in the scratch git worktree {wt} (a checkout of zopefoundation/ZConfig, a pure-Python configuration library; sources in src/ZConfig). Never touch /repo or /verif and do not read anything under /verif.
 
-Task: write 5 DIFFERENT behaviour-preserving refactorings of the library source in these files: {files}. Each refactoring is the kind of clean-up a maintainer would plausibly commit, and must keep EVERY observable behaviour exactly the same for every input (same results, same exception classes and attributes such as lineno/url, same ordering of side effects, same objects shared or copied). Exception messages must also stay the same. Make them moderately invasive so they exercise a static analyser's robustness, e.g.: extract a few statements into a new private helper method or module function (or inline a small private helper into its single caller), replace a loop by a comprehension or vice versa, restructure if/elif chains into early returns or guard clauses, introduce/rename local variables, rename a PRIVATE (underscore) helper function or private instance attribute consistently at all its uses, swap operand order of ==, replace `x[:1] == c` by `x.startswith(c)`, `len(x) == 0` by `not x`, `dict.get` vs `in`, `try/finally` vs `with`, reorder two independent statements, hoist a repeated expression into a local, convert %-formatting to f-strings with identical text, split a long function into two. Each of the 5 should touch 1-3 functions and use a different mix of such transformations. Do NOT change public names, signatures, documented behaviour, or anything under tests.
+Task: write 5 DIFFERENT behaviour-preserving refactorings of the library source in these files: {files}. Each refactoring is the kind of clean-up a maintainer would plausibly commit, and must keep EVERY observable behaviour exactly the same for every input (same results, same exception classes and attributes such as lineno/url, same ordering of side effects, same objects shared or copied). Exception messages must also stay the same. Make them moderately invasive so they exercise a static analyser's robustness, e.g.: extract a few statements into a new private helper method or module function (or inline a small private helper into its single caller), replace a loop by a comprehension or vice versa, restructure if/elif chains into early returns or guard clauses, introduce/rename local variables, rename a PRIVATE (underscore) helper function or private instance attribute consistently at all its uses, swap operand order of ==, replace `x[:1] == c` by `x.startswith(c)`, `len(x) == 0` by `not x`, `dict.get` vs `in`, `try/finally` vs `with`, reorder two independent statements, hoist a repeated expression into a local, convert %-formatting to f-strings with identical text, split a long function into two. Each of the 5 should touch 1-3 functions and use a different mix of such transformations. {extra}Do NOT change public names, signatures, documented behaviour, or anything under tests.
 
 For each refactoring (names R1..R5):
 1. Start clean (git -C {wt} checkout -- .), make the edit, run the tests: cd {wt} && PYTHONPATH={wt}/src /venv/bin/python -m pytest -q -p no:cacheprovider src/ZConfig 2>&1 | tail -3  (must give the same result as the clean tree: one pre-existing failure in test_validator test_schema_only at most, everything else passes).
@@ -34,5 +34,5 @@ for grp, files in GROUPS.items():
                        capture_output=True)
     with open("/tmp/prompts/b%s-%s.txt" % (rnd, grp), "w") as f:
         f.write(PROMPT.format(wt=wt, files=files, out="/tmp/benign%s" % rnd,
-                              grp=grp))
+                              grp=grp, extra=os.environ.get("BENIGN_EXTRA", "")))
 print("ok")
